@@ -99,6 +99,9 @@ FnSigs(e) ==
     \cup (IF "opussamples" \in DOMAIN e /\ e.opussamples # (IF ValidOpus(d) THEN PacketSamples(d) ELSE -1)
           THEN {FSig("C04", "OpusValid", "opus_packet_samples", "value")} ELSE {})
     \cup (IF "key264" \in DOMAIN e /\ e.key264 # H264HasIdr(d) THEN {FSig("C04", "KeyDetect", "is_h264_keyframe", "differs")} ELSE {})
+    \* is_hevc_keyframe: some NAL unit of an IRAP type (BLA 16-18, IDR 19-20, CRA 21; ITU-T H.265 Table 7-1)
+    \cup (IF "key265" \in DOMAIN e /\ e.key265 # (\E i \in 1..Len(Nals(d)) : H265Type(Nals(d)[i]) \in 16..21)
+          THEN {FSig("C04", "KeyDetect", "is_hevc_keyframe", "differs")} ELSE {})
     \cup { FSig("C12", "Total", e.panics[i].f, ToString(<< "panic", e.panics[i].msg >>)) : i \in 1..Len(e.panics) }
 
 TFn == /\ l <= Len(Rec) /\ Rec[l].ev = "fn" /\ l' = l + 1 /\ hdr' = hdr /\ n' = n + 1
